@@ -927,7 +927,9 @@ theorem inv_of_draining_nil {g : G} (h : Draining g []) : Inv g := by
     · rw [hgs]; exact hno
 
 theorem forceDown_armed (g : G) (ht : g.grTimer = true) (hlt : g.llgrTimers = []) :
-    forceDown g = sessionDown (grTimerExpired { g with grTimer := false }) .admin := by
+    forceDown g =
+      sessionDown ((sortNat (grTimerExpired { g with grTimer := false }).llgrTimers).foldl llgrTimerExpired
+        { grTimerExpired { g with grTimer := false } with llgrTimers := [] }) .admin := by
   obtain ⟨gs0, grT, llT, sess0, ad, rib0⟩ := g
   simp only at ht hlt; subst ht hlt
   simp [forceDown, sortNat]
@@ -944,54 +946,137 @@ theorem forceDown_llgr (g : G) (ht : g.grTimer = false) :
   simp only at ht; subst ht
   simp [forceDown]
 
-theorem inv_forceDown {g : G} (h : Inv g) : Inv (forceDown g) ∧ NoLlgrOk g (forceDown g) := by
-  by_cases ht : g.grTimer = true
-  · -- restart timer armed: no session, no LLGR timer; the expiry handler runs
-    obtain ⟨S, L, hgs⟩ := h.timerGr.mp ht
-    have hlt := llgrTimers_nil_of h (by simp [hgs])
-    obtain ⟨hi, hn, hsn, _, _⟩ := inv_grExpired h ht
-    rw [forceDown_armed g ht hlt]
-    have : sessionDown (grTimerExpired { g with grTimer := false }) .admin = grTimerExpired { g with grTimer := false } := by
-      simp [sessionDown, hsn]
-    rw [this]
-    exact ⟨hi, hn⟩
-  · have htf : g.grTimer = false := by simpa using ht
+/-- all armed LLGR timers are fired at once (no session, restart timer not armed): helper mode is over -/
+theorem inv_drainAll {g : G} (h : Inv g) (hs : g.sess = none) (hgt : g.grTimer = false) :
+    Inv ((sortNat g.llgrTimers).foldl llgrTimerExpired { g with llgrTimers := [] }) ∧
+    ((sortNat g.llgrTimers).foldl llgrTimerExpired { g with llgrTimers := [] }).sess = none ∧
+    ((sortNat g.llgrTimers).foldl llgrTimerExpired { g with llgrTimers := [] }).grTimer = false ∧
+    ((sortNat g.llgrTimers).foldl llgrTimerExpired { g with llgrTimers := [] }).llgrTimers = [] ∧
+    ((sortNat g.llgrTimers).foldl llgrTimerExpired { g with llgrTimers := [] }).adminDown = g.adminDown := by
+  have hcase : (∃ rem, g.gs = .llgrStaling rem) ∨ g.llgrTimers = [] := by
     cases hgs : g.gs with
-    | llgrStaling rem =>
-        have hsn := sess_none_of_ls h hgs
-        have hc := h.cover
-        unfold Cover at hc
-        rw [hgs] at hc
-        have hd : Draining ({ g with llgrTimers := [] } : G) rem :=
-          ⟨hsn, htf, rfl, Or.inl hgs, hc.1, hc.2⟩
-        obtain ⟨hd', _⟩ := draining_fold hd (sortNat g.llgrTimers)
-        have hnil : rem.filter (fun f => !(sortNat g.llgrTimers).contains f) = [] := by
-          apply List.filter_eq_nil_iff.mpr
-          intro f hf
-          have : f ∈ g.llgrTimers := (h.timerLl f).mpr ⟨rem, hgs, hf⟩
-          simp [mem_sortNat, this]
-        rw [hnil] at hd'
+    | llgrStaling rem => exact Or.inl ⟨rem, rfl⟩
+    | idle => exact Or.inr (llgrTimers_nil_of h (by simp [hgs]))
+    | peerReconnected P fl => exact Or.inr (llgrTimers_nil_of h (by simp [hgs]))
+    | peerRestarting S L => exact Or.inr (llgrTimers_nil_of h (by simp [hgs]))
+  rcases hcase with ⟨rem, hgs⟩ | hlt
+  · have hc := h.cover
+    unfold Cover at hc
+    rw [hgs] at hc
+    have hd : Draining ({ g with llgrTimers := [] } : G) rem := ⟨hs, hgt, rfl, Or.inl hgs, hc.1, hc.2⟩
+    obtain ⟨hd', had⟩ := draining_fold hd (sortNat g.llgrTimers)
+    have hnil : rem.filter (fun f => !(sortNat g.llgrTimers).contains f) = [] := by
+      apply List.filter_eq_nil_iff.mpr
+      intro f hf
+      have : f ∈ g.llgrTimers := (h.timerLl f).mpr ⟨rem, hgs, hf⟩
+      simp [mem_sortNat, this]
+    rw [hnil] at hd'
+    exact ⟨inv_of_draining_nil hd', hd'.sess, hd'.grT, hd'.llT, had⟩
+  · have e1 : ({ g with llgrTimers := [] } : G) = g := by
+      obtain ⟨gs0, grT, llT, sess0, ad, rib0⟩ := g
+      simp only at hlt; subst hlt; rfl
+    rw [e1, hlt]
+    simp only [sortNat, List.foldr_nil, List.foldl_nil]
+    refine ⟨h, hs, hgt, ?_, ?_⟩
+    · first | exact hlt | trivial
+    · first | rfl | trivial
+
+/-- `force_down`: afterwards the invariant holds, no session, no timer armed -/
+theorem inv_forceDown' {g : G} (h : Inv g) :
+    Inv (forceDown g) ∧ NoLlgrOk g (forceDown g) ∧ (forceDown g).sess = none ∧
+    (forceDown g).adminDown = g.adminDown ∧ (forceDown g).grTimer = false ∧ (forceDown g).llgrTimers = [] := by
+  by_cases ht : g.grTimer = true
+  · obtain ⟨S, L, hgs⟩ := h.timerGr.mp ht
+    have hlt := llgrTimers_nil_of h (by simp [hgs])
+    obtain ⟨hi, _, hsn, had, hgf⟩ := inv_grExpired h ht
+    rw [forceDown_armed g ht hlt]
+    obtain ⟨d1, d2, d3, d4, d5⟩ := inv_drainAll hi hsn hgf
+    have : sessionDown ((sortNat (grTimerExpired { g with grTimer := false }).llgrTimers).foldl llgrTimerExpired
+        { grTimerExpired { g with grTimer := false } with llgrTimers := [] }) .admin =
+        (sortNat (grTimerExpired { g with grTimer := false }).llgrTimers).foldl llgrTimerExpired
+        { grTimerExpired { g with grTimer := false } with llgrTimers := [] } := by
+      simp [sessionDown, d2]
+    rw [this]
+    exact ⟨d1, noLlgrOk_of_timers_sub fun f hf => (by rw [d4] at hf; cases hf), d2, d5.trans had, d3, d4⟩
+  · have htf : g.grTimer = false := by simpa using ht
+    cases hs : g.sess with
+    | none =>
+        obtain ⟨d1, d2, d3, d4, d5⟩ := inv_drainAll h hs htf
         rw [forceDown_llgr g htf]
-        have hsd : sessionDown ((sortNat g.llgrTimers).foldl llgrTimerExpired { g with llgrTimers := [] }) .admin =
+        have : sessionDown ((sortNat g.llgrTimers).foldl llgrTimerExpired { g with llgrTimers := [] }) .admin =
             (sortNat g.llgrTimers).foldl llgrTimerExpired { g with llgrTimers := [] } := by
-          simp [sessionDown, hd'.sess]
-        rw [hsd]
-        exact ⟨inv_of_draining_nil hd', noLlgrOk_of_timers_sub fun f hf => by rw [hd'.llT] at hf; cases hf⟩
-    | idle =>
-        have hlt := llgrTimers_nil_of h (by simp [hgs])
-        rw [forceDown_quiet g htf hlt]; exact inv_sessionDown h .admin
-    | peerReconnected P fl =>
-        have hlt := llgrTimers_nil_of h (by simp [hgs])
-        rw [forceDown_quiet g htf hlt]; exact inv_sessionDown h .admin
-    | peerRestarting S L =>
-        exact absurd (h.timerGr.mpr ⟨S, L, hgs⟩) ht
+          simp [sessionDown, d2]
+        rw [this]
+        exact ⟨d1, noLlgrOk_of_timers_sub fun f hf => (by rw [d4] at hf; cases hf), d2, d5, d3, d4⟩
+    | some s =>
+        obtain ⟨_, _, hlt, _⟩ := h.live s hs
+        rw [forceDown_quiet g htf hlt]
+        obtain ⟨i1, i2⟩ := inv_sessionDown h .admin
+        obtain ⟨F1a, F1b⟩ : helperGr s .admin g.adminDown = none ∧ helperLlgr s .admin g.adminDown = none := by
+          cases had : g.adminDown with
+          | true => simp [helperGr, helperLlgr]
+          | false => cases hg : s.gr <;> simp [helperGr, helperLlgr, hg, grApplies]
+        have hsd := sessionDown_none hs .admin F1a F1b
+        refine ⟨i1, i2, ?_, ?_, ?_, ?_⟩ <;> rw [hsd]
+        · exact htf
+        · exact hlt
+
+theorem inv_forceDown {g : G} (h : Inv g) : Inv (forceDown g) ∧ NoLlgrOk g (forceDown g) :=
+  ⟨(inv_forceDown' h).1, (inv_forceDown' h).2.1⟩
 
 /-! ## every event -/
 
-/-- the event is in the property's domain for this state (see `Spec.wf`) -/
-def EvWF (g : G) : Ev → Prop
-  | .est fams gr llgr _ => g.sess.isSome = true ∨ SessWF { fams := fams, gr := gr, llgr := llgr }
-  | _ => True
+/-- what a session negotiates is well-formed: non-empty sets of session families -/
+theorem sessWF_negotiate (fams : List Fam) (gr : Option NegGr) (llgr : Option (List Fam)) :
+    SessWF (negotiate fams gr llgr) := by
+  refine ⟨fun n hn => ?_, fun l hl => ?_⟩
+  · cases gr with
+    | none => simp [negotiate] at hn
+    | some m =>
+        simp only [negotiate] at hn
+        split at hn
+        · cases hn
+        · rename_i hne
+          cases hn
+          refine ⟨fun he => hne (by simp only at he; rw [he]; rfl), fun f hf => ?_⟩
+          simp only [negotiate]
+          exact (List.mem_filter.mp hf).1
+  · cases llgr with
+    | none => simp [negotiate] at hl
+    | some m =>
+        simp only [negotiate] at hl
+        split at hl
+        · cases hl
+        · rename_i hne
+          cases hl
+          refine ⟨fun he => hne (by rw [he]; rfl), fun f hf => ?_⟩
+          simp only [negotiate]
+          exact (List.mem_filter.mp hf).1
+
+theorem fireLlgr_sub (g : G) (f : Fam) :
+    (∀ f' ∈ (fireLlgr g f).llgrTimers, f' ∈ g.llgrTimers) ∧ (∀ x ∈ (fireLlgr g f).rib, x ∈ g.rib) := by
+  unfold fireLlgr
+  by_cases hf : g.llgrTimers.contains f = true
+  · rw [if_pos hf]
+    unfold llgrTimerExpired
+    simp only
+    refine ⟨fun f' hf' => (List.mem_filter.mp hf').1, fun x hx => ?_⟩
+    rw [each_dropLlgrStale] at hx
+    exact (List.mem_filter.mp hx).1
+  · rw [if_neg hf]; exact ⟨fun _ h => h, fun _ h => h⟩
+
+theorem inv_fireLlgr_fold {g0 g : G} (h : Inv g) (hn : NoLlgrOk g0 g) (l : List Fam) :
+    Inv (l.foldl fireLlgr g) ∧ NoLlgrOk g0 (l.foldl fireLlgr g) := by
+  induction l generalizing g with
+  | nil => exact ⟨h, hn⟩
+  | cons f l ih =>
+      simp only [List.foldl_cons]
+      apply ih (inv_fireLlgr h f).1
+      intro f' hf'
+      obtain ⟨h1, h2⟩ := fireLlgr_sub g f
+      rcases hn f' (h1 f' hf') with h3 | h3
+      · exact Or.inl h3
+      · exact Or.inr fun x hx hxf => h3 x (h2 x hx) hxf
 
 theorem inv_adminDown {g : G} (h : Inv g) (b : Bool) : Inv { g with adminDown := b } :=
   ⟨h.live, h.timerGr, h.timerLl, h.cover⟩
@@ -1013,19 +1098,16 @@ theorem onEst_fields (g : G) (fs : List Fam) (lr : Bool) :
   | llgrStaling rem => rw [onEst_ls g rem hgs]; exact ⟨rfl, rfl⟩
 
 /-- The invariant is inductive: every in-domain event preserves it (and arms LLGR timers only
-    after dropping the NO_LLGR routes of their families). -/
-theorem step_inv {g : G} (h : Inv g) (ev : Ev) (hw : EvWF g ev) : Inv (step g ev) ∧ NoLlgrOk g (step g ev) := by
+    after dropping the NO_LLGR routes of their families).  No side condition on the event. -/
+theorem step_inv {g : G} (h : Inv g) (ev : Ev) : Inv (step g ev) ∧ NoLlgrOk g (step g ev) := by
   cases ev with
   | est fams gr llgr lr =>
       cases hs : g.sess with
       | some s => simp only [step, hs]; exact ⟨h, noLlgrOk_of_timers_sub fun f hf => hf⟩
       | none =>
           simp only [step, hs]
-          have hw' : SessWF { fams := fams, gr := gr, llgr := llgr } := by
-            rcases hw with hw | hw
-            · rw [hs] at hw; cases hw
-            · exact hw
-          exact ⟨inv_established h hs _ hw' lr, noLlgrOk_of_timers_sub (onEst_timers_sub _ _ _)⟩
+          exact ⟨inv_established h hs _ (sessWF_negotiate fams gr llgr) lr,
+            noLlgrOk_of_timers_sub (onEst_timers_sub _ _ _)⟩
   | ann f n nl lc =>
       cases hs : g.sess with
       | none => simp only [step, hs]; exact ⟨h, noLlgrOk_of_timers_sub fun f hf => hf⟩
@@ -1058,5 +1140,6 @@ theorem step_inv {g : G} (h : Inv g) (ev : Ev) (hw : EvWF g ev) : Inv (step g ev
       · simp only [ha, Bool.false_eq_true, ↓reduceIte]
         exact inv_forceDown (inv_adminDown h true)
   | enable => exact ⟨inv_adminDown h false, noLlgrOk_of_timers_sub fun f hf => hf⟩
+  | wait => exact inv_fireLlgr_fold (inv_fireGr h).1 (inv_fireGr h).2 _
 
 end Rbgp.Gr.Helper
